@@ -5,6 +5,11 @@ package props
 // must be identical. The same functions are linked into cmd/pqrace, which is built with -race.
 
 import (
+	"reflect"
+	"sync/atomic"
+
+	"github.com/parquet-go/parquet-go/format"
+
 	"bytes"
 	"crypto/sha256"
 	"encoding/hex"
@@ -274,18 +279,22 @@ type c15Scenario struct {
 	Name string
 	Doc  string
 	Run  func(seed int64, par bool) (string, error)
+	// SubprocessOnly: a failure mode of the scenario kills the process (fatal error: concurrent map
+	// read and map write), so it runs only inside cmd/pqrace
+	SubprocessOnly bool
 }
 
 var C15Scenarios = []c15Scenario{
-	{"writers", "N independent writers (own buffer each) sharing one *Schema and the package-level codec and encoding values", scenWriters},
-	{"readers", "N independent readers over the same bytes, sharing one *Schema", scenReaders},
-	{"buffers", "N independent sorting buffers sharing one *Schema, flushed through independent writers", scenBuffers},
-	{"sharedfile", "N goroutines on one *parquet.File: Rows, Pages, ColumnIndex/OffsetIndex (lazily published), BloomFilter", scenSharedFile},
-	{"columnwriters", "one goroutine per ColumnWriter of one Writer", scenColumnWriters},
-	{"rowgroups", "row groups from BeginRowGroup filled concurrently, committed in order", scenRowGroups},
-	{"rowgroups-pipelined", "as rowgroups, but each row group is committed (in order) while later ones are still being filled", scenRowGroupsPipelined},
-	{"asyncfile", "N goroutines reading one file opened in ReadModeAsync (rows and seeks), compared with sync mode", scenAsyncFile},
-	{"schema", "one fresh *Schema (lazy state not yet built) and the shared codecs used from N goroutines at once", scenSchema},
+	{"writers", "N independent writers (own buffer each) sharing one *Schema and the package-level codec and encoding values", scenWriters, false},
+	{"readers", "N independent readers over the same bytes, sharing one *Schema", scenReaders, false},
+	{"buffers", "N independent sorting buffers sharing one *Schema, flushed through independent writers", scenBuffers, false},
+	{"sharedfile", "N goroutines on one *parquet.File: Rows, Pages, ColumnIndex/OffsetIndex (lazily published), BloomFilter", scenSharedFile, false},
+	{"columnwriters", "one goroutine per ColumnWriter of one Writer", scenColumnWriters, false},
+	{"rowgroups", "row groups from BeginRowGroup filled concurrently, committed in order", scenRowGroups, false},
+	{"rowgroups-pipelined", "as rowgroups, but each row group is committed (in order) while later ones are still being filled", scenRowGroupsPipelined, false},
+	{"asyncfile", "N goroutines reading one file opened in ReadModeAsync (rows and seeks), compared with sync mode", scenAsyncFile, false},
+	{"schema", "one fresh *Schema (lazy state not yet built) and the shared codecs used from N goroutines at once", scenSchema, false},
+	{"registries", "process-wide registries and caches: independent Files opened with never-before-seen ReadBufferSize values (bufio.Reader pool registry), never-before-seen Go struct types (schema cache, struct field cache), encoding/codec lookups", scenRegistries, true},
 }
 
 func C15ScenarioByName(name string) *c15Scenario {
@@ -817,6 +826,82 @@ func scenSchema(seed int64, par bool) (string, error) {
 				}
 				fmt.Fprintf(&sb, "%s %s;", codec, digest(enc))
 			}
+		}
+		outs[i] = sb.String()
+		return nil
+	})
+	return digestStrings(outs), err
+}
+
+// c15FreshKey hands out values no goroutine of this process has used before: the registries under
+// test insert on the first use of a key only.
+var c15FreshKey atomic.Int64
+
+func c15Fresh() int64 { return 3000 + c15FreshKey.Add(1) }
+
+// scenRegistries: what the goroutines share is only package-level state of the library. Each
+// goroutine opens its own File over the same bytes again and again, each time with a ReadBufferSize
+// nobody has used yet (getBufioReaderPool inserts into its map while the other goroutines look
+// their sizes up), builds schemas of Go struct types nobody has seen yet (cachedSchemas), writes
+// values of such types through a Group schema (structFieldsCache) and looks encodings and codecs up.
+// The output (rows, pages) does not depend on the fresh values.
+func scenRegistries(seed int64, par bool) (string, error) {
+	schema := parquet.SchemaOf(C15Flat{})
+	rows := c15FlatRows(rand.New(rand.NewSource(seed)), 300)
+	var file bytes.Buffer
+	w := parquet.NewGenericWriter[C15Flat](&file, schema, parquet.PageBufferSize(256), parquet.Compression(&parquet.Snappy))
+	if _, err := w.Write(rows); err != nil {
+		return "", err
+	}
+	if err := w.Close(); err != nil {
+		return "", err
+	}
+	data := file.Bytes()
+	group := parquet.NewSchema("g", parquet.Group{"A": parquet.Int(64), "B": parquet.String()})
+	const n = 12
+	outs := make([]string, n)
+	err := fanout(par, n, func(i int) error {
+		var sb bytes.Buffer
+		for round := 0; round < 24; round++ {
+			size := int(c15Fresh())
+			f, err := parquet.OpenFile(bytes.NewReader(data), int64(len(data)), parquet.ReadBufferSize(size))
+			if err != nil {
+				return err
+			}
+			cc := f.RowGroups()[0].ColumnChunks()[(i+round)%6]
+			txt, err := readChunkPages(cc)
+			if err != nil {
+				return err
+			}
+			sb.WriteString(digest([]byte(txt)))
+			if round%6 == 0 {
+				r, err := readRowGroupRows(f.RowGroups()[0])
+				if err != nil {
+					return err
+				}
+				sb.WriteString(digest([]byte(r)))
+			}
+			// a struct type nobody has seen: the extra field name is fresh
+			extra := fmt.Sprintf("X%d", c15Fresh())
+			typ := reflect.StructOf([]reflect.StructField{
+				{Name: "A", Type: reflect.TypeOf(int64(0)), Tag: `parquet:"A"`},
+				{Name: "B", Type: reflect.TypeOf(""), Tag: `parquet:"B"`},
+				{Name: extra, Type: reflect.TypeOf(int32(0)), Tag: `parquet:"-"`},
+			})
+			v := reflect.New(typ).Elem()
+			v.Field(0).SetInt(int64(i*100 + round))
+			v.Field(1).SetString(fmt.Sprintf("s%d", round))
+			fmt.Fprintf(&sb, "%v|", parquet.SchemaOf(v.Interface()).Columns())
+			buf := parquet.NewBuffer(group)
+			if err := buf.Write(v.Interface()); err != nil {
+				return err
+			}
+			br, err := readRowGroupRows(buf)
+			if err != nil {
+				return err
+			}
+			sb.WriteString(br)
+			fmt.Fprintf(&sb, "%s %s;", parquet.LookupEncoding(format.Encoding(round%10)), parquet.LookupCompressionCodec(format.CompressionCodec(round%8)))
 		}
 		outs[i] = sb.String()
 		return nil
